@@ -16,6 +16,8 @@ mod c03;
 mod c07;
 mod build_checks;
 mod c16;
+mod c11;
+mod c12;
 
 use rayon::prelude::*;
 
@@ -61,6 +63,8 @@ fn check(id: &str, tier: &str, seed: u64) -> i32 {
         "C07" => "C07",
         "C09" => "C09",
         "C13" => "C13",
+        "C11" => "C11",
+        "C12" => "C12",
         "C16" => "C16",
         "C19" => "C19",
         "C20" => "C20",
@@ -93,6 +97,8 @@ fn check(id: &str, tier: &str, seed: u64) -> i32 {
         "C09" => build_checks::run_c09(tier, seed),
         "C13" => build_checks::run_c13(tier, seed),
         "C16" => c16::run_c16(tier, seed),
+        "C11" => c11::run_c11(tier, seed),
+        "C12" => c12::run_c12(tier, seed),
         "C19" => build_checks::run_c19(tier, seed),
         "C20" => build_checks::run_c20(tier, seed),
         _ => campaign::run_sem_campaign(prop, tier, seed),
@@ -117,6 +123,14 @@ fn replay_file(path: &std::path::Path) -> Result<Option<String>, String> {
         Some("c09") | Some("c13") | Some("c19") | Some("c20") => {
             let rep: build_checks::ProgReplay = serde_json::from_value(v).map_err(|e| e.to_string())?;
             build_checks::replay_prog(&rep)
+        }
+        Some("c12") => {
+            let rep: build_checks::ProgReplay = serde_json::from_value(v).map_err(|e| e.to_string())?;
+            c12::replay_c12(&rep)
+        }
+        Some("c11") => {
+            let rep: build_checks::ProgReplay = serde_json::from_value(v).map_err(|e| e.to_string())?;
+            c11::replay_c11(&rep)
         }
         Some("c16") => {
             let rep: build_checks::ProgReplay = serde_json::from_value(v).map_err(|e| e.to_string())?;
